@@ -19,6 +19,27 @@ CLAIMED["C06"] = dict(
     text="Theorems (closed): loop_unroll (executing a for-loop equals executing its body once per value with the variable replaced by the cast value; equality of outcomes incl. refusals), range_sem/range_sem_neg (a:b:c = a, a+c, ... below b), empty ranges contribute nothing, the loop variable is unbound and the environment unchanged after the loop, statements after the loop are unaffected, bad listed values are refused. The model is tied to the code by loading every generated loop script with both and comparing programs, and by checking loop == unrolled text on the implementation itself.",
     note=LOADER_NOTE, ref="5 C06")
 
+CLAIMED["C02"] = dict(
+    technique="Coq proof over the executable loader model (metadata as written, one op per statement in order, mode union) + differential correspondence implementation vs extracted model on generated scripts",
+    text="Theorems (closed): meta_as_written, exec_stmt_plain (one operation per executed statement with the written name, modes in order as integers, argument values), ops_append_only / ops_in_order, modes_union (also with includes). The model's answer for each generated script (metadata, declarations, every bracket style, positional/keyword/list arguments, Measure*, loops, parameters, registers) is compared field by field with the program the implementation loads.",
+    note=LOADER_NOTE, ref="5 C02")
+CLAIMED["C03"] = dict(
+    technique="Coq proof (precedence-climbing parser = unique stratified tree; evaluator = arithmetic homomorphism; integer closure; true division) + differential correspondence with exact (mpmath) evaluation of the model's term under a forward error bound",
+    text="Theorems (closed): pexpr_yield/strat/complete and strat_unique (the expression parser is the bijection between token strings and stratified trees: brackets, sign 9, ** 8 right-assoc, * / 7, + - 6 left-assoc), eval_hom_eq (the computed value denotes the ordinary arithmetic value in any structure interpreting the operations), int_closed_value/int_value, pow_neg_real, div_real, fn_real, idx_row_major. The implementation's numbers are compared with the exact value of the model's term (relative 1e-12, conditioning-aware), kinds exactly.",
+    note=LOADER_NOTE + " Floating point is not modelled bit-exactly; real/complex arithmetic is symbolic in the model.", ref="5 C03")
+CLAIMED["C05"] = dict(
+    technique="Coq proof (cast and array-layout lemmas over the loader model) + differential correspondence on declaration-focused scripts",
+    text="Theorems (closed): cast_scalar_kind/value (declared type, initialiser's value), array_layout and array_layout_rc (accepted arrays are 2-D with the declared element type, element (r,c) = c-th entry of the r-th written row, declared shape = actual shape), idx_row_col, refusal lemmas. Ragged rows and contradicting shapes must be refused by model and implementation alike; variables are compared element by element.",
+    note=LOADER_NOTE, ref="5 C05")
+CLAIMED["C11"] = dict(
+    technique="Coq proof (strictness: a fault never becomes a value; refusal class and position for undefined names; cast refusals) + fault-injection correspondence over the fault-class x slot matrix",
+    text="Theorems (closed): undefined_never_ok and its lifts through arguments, modes, declarations and loop lists, undefined_leftmost_refuse (class, identifier, line, column), cast refusals for complex into int/float and loop values not of the loop type. Each generated faulty script must be refused by the model and must raise in the implementation (BlackbirdSyntaxError naming identifier/line/column for undefined and reserved names).",
+    note=LOADER_NOTE + " Include arity/keyword faults are exercised under C07.", ref="5 C11")
+CLAIMED["C15"] = dict(
+    technique="Coq proof (p-array registration and by-name evaluation in the loader model) + differential correspondence and serialise/re-load predicate on tdm scripts",
+    text="Theorems (closed): pname_by_name, pname_eval, non_pname_by_value, pname_only_tdm_ptype, pnames_not_params. Generated tdm scripts are loaded by model and implementation (arguments are names, variables hold the arrays, p-names are not parameters) and the implementation's dump is re-loaded and compared exactly.",
+    note=LOADER_NOTE + " The serialiser itself is not yet modelled in Coq; the round-trip clause is checked on the implementation (and through the model loader) only.", ref="5 C15")
+
 NOT_YET = {
 }
 
